@@ -65,6 +65,7 @@ pub fn hex(b: &[u8]) -> String {
     s
 }
 
+#[allow(dead_code)]
 pub fn unhex(s: &str) -> Vec<u8> {
     if s == "-" {
         return vec![];
